@@ -9,6 +9,7 @@ Oracle on the implementation alone: every job body entered exactly once and the 
 The connection part (props/c06_socket.py) runs histories of real TCP connections against the real binary."""
 from vlib import common as C
 from props import pool_common as P
+from vlib import gen_c06 as G
 
 DRIVERS = ['Pool']   # model driver files this check runs: scopes translator failures to the tables they (and the proofs) import
 TRUSTED = ['cfg(rws_verif) hooks in src/thread_pool/mod.rs (add-only)',
@@ -17,8 +18,9 @@ TRUSTED = ['cfg(rws_verif) hooks in src/thread_pool/mod.rs (add-only)',
 ASSUMPTIONS = ['a job outcome is ok / handler error / panic; stalls of a connection that is never closed keep their worker by design (DESIGN.md 6/C06)',
                'the OS scheduler is sampled, not enumerated']
 
-def gen(rng, tier):
+def gen(rng, tier, labels=None):
     lines = []
+    if labels is None: labels = {}
     def add(n, kinds, perturb): lines.append(P.scenario(n, kinds, rng.below(1 << 32), perturb))
     # regression cases of F12 first: N panicking jobs on an N-worker pool, then work must still run
     add(3, 'ppp' + 'iiiii', False)                 # the observed defect: 3 panics, 0 of 5 follow-ups ran
@@ -26,7 +28,11 @@ def gen(rng, tier):
         add(n, 'p' * n + 'w' + 'b' * n, False)
         add(n, 'p' * (2 * n + 1) + 'b' * n, True)
     nprobe = len(lines)
-    total = 60 if tier == 'quick' else 1000
+    # shapes added by the generator audit (vlib/gen_c06.py): long jobs and waits inside the history, probes inside the history,
+    # the history forced through one worker, hundreds of panics on one worker, one payload kind only, empty history, large pools
+    for n, kinds, perturb, label in G.pool_shapes(rng, tier):
+        add(n, kinds, perturb); labels[len(lines) - 1] = label
+    total = len(lines) + (43 if tier == 'quick' else 1000)
     maxlen = 400
     while len(lines) < total:
         n = rng.range(1, 8)
@@ -43,24 +49,30 @@ def gen(rng, tier):
 
 def run(res, tier, seed):
     rng = C.Rng(seed ^ 0xC06)
-    lines, nprobe = gen(rng, tier)
+    labels = {}
+    lines, nprobe = gen(rng, tier, labels)
     impl = P.run_pool(lines[:nprobe], parallel=1)
     if not any('status=timeout' in x for x in impl):
         impl += P.run_pool(lines[nprobe:], batch=20)
     else:
         impl += ['skipped'] * (len(lines) - nprobe)
     answers = P.judge(res, 'C06', lines, impl)
-    for ln, out in zip(lines, impl):
+    for k, (ln, out) in enumerate(zip(lines, impl)):
         if out == 'skipped': continue
         n, kinds = P.parse_scenario(ln)
         hist = kinds.rstrip('b').rstrip('w')
-        res.count(f'N={n}')
+        if k in labels: res.count('pool shape: ' + labels[k].split(' (')[0])
+        res.count(f'N={n}' if n <= 8 else 'N>8')
         res.count('history length ' + ('<=N' if len(hist) <= n else '<=40' if len(hist) <= 40 else '<=120' if len(hist) <= 120 else '<=400'))
         res.count('panics in history: ' + ('0' if 'p' not in hist else '<N' if hist.count('p') < n else '>=N'))
     _socket_part(res, tier, seed)
-    res.rule = ('(a) one case = one history of ok/handler-error/panicking jobs (length 1..400) on a fresh real ThreadPool of '
-                'N in 1..8 workers followed by the rendezvous probe of N barrier tasks on the same pool; the recorded '
-                'trace is replayed on the model; (b) histories of 1..400 real TCP connections (valid, fault-provoking, early close, RST before/after sending, half-sent, oversized) against the real binary with N in {1,2,3,4,8} workers, then the probe: N-1 idle connections + one request; distinct = distinct (scenario, trace) pairs / histories')
+    res.rule = ('(a) one case = one history of ok/handler-error/long/panicking jobs and waits (length 0..400; also forced through one worker '
+                'while the others block, with probes inside, hundreds of panics on one worker, one payload kind only) on a fresh real ThreadPool of '
+                'N in 1..8 (and 12..32) workers followed by the rendezvous probe of N barrier tasks on the same pool; the recorded '
+                'trace is replayed on the model; (b) histories of 1..400 real TCP connections (valid in several ways, fault-provoking, early close, RST before/after sending, '
+                'half-sent at every place, oversized / exactly buffer-sized, stalls, segments, answers abandoned while written, bursts, held idle connections, accept() failing '
+                'under a descriptor limit; the same kind > 16 times per worker) against the real binary with N in {1,2,3,4,8} workers, then the probe: N-1 idle connections + one '
+                'request, then a table of valid requests compared with the answers of a fresh server; distinct = distinct (scenario, trace) pairs / histories')
     for k in (0, 1, len(lines) - 1):
         if impl[k] != 'skipped':
             res.sample({'scenario': lines[k][:120], 'implementation': impl[k][:200] + '…', 'model': answers.get(k)})
@@ -70,4 +82,16 @@ def _socket_part(res, tier, seed):
     c06_socket.run_part(res, C.Rng(seed ^ 0x50C), tier)
 
 def replay(rp):
+    case = rp.get('case') or (rp.get('correspondence') or {}).get('case')
+    if isinstance(case, dict) and case.get('mode') == 'socket':
+        # a history of connections: run it again on the real binary (the variants of the old kinds are drawn from a fixed seed)
+        from props import c06_socket
+        res = C.Result('C06')
+        hs = dict(n=case['N'], hist=case['history'], alloc=case.get('alloc'), nofile=case.get('nofile'), label='replay')
+        # four times: how the probe and the requests after the history are made depends on the position of the history in the run
+        c06_socket.run_part(res, C.Rng(0x50C), 'quick', only=[hs] * 4)
+        print('history         :', case)
+        print('oracle failures :', len(res.failures))
+        for f in res.failures[:3]: print('  failure:', f['sig'], '-', f['why'], '-', str(f['impl'])[:300])
+        return 1 if res.failures else 0
     return P.replay('C06', rp, times=10)
